@@ -29,6 +29,23 @@ def parse (t : List String) : Option Op :=
   | ["upd", "s", s] => some (.updS (nat! s))
   | _ => none
 
+/-- NOT PROVED, checked on every model state the differential run reaches: a response channel carries a
+request id only while a pending response of the receiving client owns that channel with that id
+(so a channel closed by `drop(PendingResponse)` stays closed for every connection, also those the
+client was not attached to at that moment) -/
+def chanOwned (w : World) (c : Nat) : Nat → List Chan → Bool
+  | _, [] => true
+  | ch, x :: r =>
+    (match x.state with
+     | .closed => true
+     | .id v _ =>
+       match getCl w c with
+       | some C => C.pendings.any fun P => P.rid == v && P.channel == ch
+       | none => false) && chanOwned w c (ch + 1) r
+
+def s1ok (w : World) : Bool :=
+  w.conns.all fun e => !(e.1.1.srv && !e.1.2.srv) || chanOwned w e.1.2.n 0 e.2.chans
+
 def stepLine (w : Option World) (t : List String) : Option World × String :=
   match t with
   | ["new", _variant, mc, ms, a, b, r, ovq, ovr, ff, l, ecb, scb] =>
@@ -39,7 +56,9 @@ def stepLine (w : Option World) (t : List String) : Option World × String :=
     match w, parse t with
     | none, _ => (none, "no-world")
     | _, none => (w, "bad-op")
-    | some w, some op => let (w', out) := step w op; (some w', out)
+    | some w, some op =>
+      let (w', out) := step w op
+      (some w', if w'.panicked || s1ok w' then out else out ++ " !S1")
 
 def comp : Comp := { σ := Option World, init := none, step := stepLine }
 end Driver.ReqResD
